@@ -21,7 +21,13 @@ def register(prop, TB_COMMON):
         "the model-level statement is read_weight_linear (ok path only)",
         "modelled, not verified: bytes::Bytes::split_to / Buf::advance / copy_to_slice, integer_encoding::VarInt::decode_var",
     ]
-    prop("C09", lean_props=["C09", "Tables"], trusted_base=tb_tot, oracle_tags=["C09"],
+    tb_tot = tb_tot + [
+        "emitted decoders (second stream, C09gen): adversarial variants of valid binary encodings of every generated type through the compiled emitted code and the "
+        "template model (TGen/Decode.lean); nesting bombs of a recursive type decoded on a 2 MiB thread; the emitted half has no theorem of its own beyond C08/C02's "
+        "correspondence on well-formed input — on malformed input the tie is T1 only",
+    ]
+    prop("C09", lean_props=["C09", "Tables"], trusted_base=tb_tot, oracle_tags=["C09"], bins=["rt", "gentool"],
+         streams=[{"name": "C09"}, {"name": "C09gen", "bin": "genrun", "pygen": "requests_C09gen"}],
          explanation="sk: raw bytes (every truncation, bit flips, every type / length / count / field-id position overwritten with boundary values, random strings, "
                      "nesting bombs) through read and skip of every safe reader; pfx: every strict prefix of a valid encoding rejected by read and by skip; "
                      "oracle: no panic / abort, < 5 s, peak allocation bound, async future never left pending")
